@@ -5,9 +5,12 @@ use swc_core::{
         ast::*,
         atoms::Atom,
         utils::{is_valid_prop_ident, quote_ident, quote_str},
+        visit::VisitWith,
     },
     plugin::errors::HANDLER,
 };
+
+use crate::SuspendFinder;
 
 pub(crate) fn is_directive(jsx_attr: &JSXAttr) -> bool {
     let name = match &jsx_attr.name {
@@ -326,6 +329,18 @@ fn parse_v_model_directive(
             handler.span_err(
                 jsx_attr.span,
                 "The value bound by `v-model` must be an identifier or a member expression.",
+            );
+        });
+    }
+    // the bound value is written again in the update listener, a function of its own
+    let mut suspend_finder = SuspendFinder::default();
+    value.visit_with(&mut suspend_finder);
+    if let Some(span) = suspend_finder.found {
+        HANDLER.with(|handler| {
+            handler.span_err(
+                span,
+                "`await` and `yield` can't be used in the value bound by `v-model`, \
+                 because it is also assigned to later, in an event listener.",
             );
         });
     }
